@@ -5,17 +5,12 @@ open ShootVerif.Ctor ShootVerif.GetSet ShootVerif
 /-- region of one type for C01 (`shoot new`): what the property expects is always "ok"; the regions name
     the input classes on which the unchanged generator is known to emit Go that does not build -/
 def c01TypeRegion (flags : List String) (generic : Bool) (t : Tree) : String :=
-  let opt := flags.contains "-opt"
+  -- accessor / option / shadow-struct names are Pascal-cased field names: they must be distinct when such code is emitted
+  let needPascal := flags.any (fun f => f == "-opt" || f == "-getset" || f == "-json")
   let vis := visibleLeaves t
-  let elig := specParams t
-  let camel := elig.map (fun l => paramName l.info.name)
   if !wfLevels t then "Out"
-  else if !camel.Nodup then "F_paramCollision"
-  else if opt && generic then "F_optGeneric"
-  else if Ctor.region t != "WF" then "Out"
   else if !wfOnce t then "Out"
-  else if !((vis.map (fun l => Transfer.pascalS l.info.name)).Nodup) then "Out"
-  else if !((vis.map (fun l => paramName l.info.name)).Nodup) then "Out"
+  else if needPascal && !((vis.map (fun l => Transfer.pascalS l.info.name)).Nodup) then "Out"
   else if vis.any (fun l => isExportedName l.info.name && l.info.name.contains '_') then "Out"
   else "WF"
 
